@@ -117,9 +117,11 @@ func TestVerifC06Reads(t *testing.T) {
 						entries = append(entries, rt.V1Entry{Name: string(big), Value: uint64(k)})
 					}
 				}
+				before, _ := os.Stat(fname)
 				write(st.Ver)
-				if fi, err := os.Stat(fname); err != nil || int(fi.Size()) != st.Pages*16384 {
-					rt.Out(rt.M{"kind": "infra", "what": "file size differs from the model", "id": bh.ID, "step": i, "pages": st.Pages, "err": fmt.Sprint(err)})
+				// "inc" and "new" normally leave the size as it is (the case a size-based check cannot see); "grow" must change it
+				if after, err := os.Stat(fname); err != nil || (st.Kind == "grow" && after.Size() <= before.Size()) {
+					rt.Out(rt.M{"kind": "infra", "what": "the change did not have the intended effect on the file size", "id": bh.ID, "step": i, "change": st.Kind, "err": fmt.Sprint(err)})
 					good = false
 				}
 			case "newreader":
